@@ -4097,7 +4097,8 @@ class LoopNode(ActionSinkNode, ActionSourceNode):
             for trans in accept_state.transitions:
                 if trans.error_handling:
                     trans.handles_else(False).fallthrough().to(sub_dfa.starting_state).attach(*self.loop_start_actions)
-            if not accept_state.transitions:
+            if not any(DFTransition.Else in x.on_values for x in accept_state.transitions):
+                # nothing (or only what continues the last statement) is handled here: everything else starts the next iteration
                 accept_state[DFTransition.Else] = DFTransition(fallthrough=True).to(sub_dfa.starting_state).attach(*self.loop_start_actions)
 
         for state in sub_dfa.states:
